@@ -54,6 +54,21 @@ static inline struct pair_pE_b L0_SET__insert__rE(void *s, const E *v) { return 
 static inline struct pair_pE_b L0_SET__insert__rrE(void *s, E *v) { return l0_as_insert(s, v, 1); }
 static inline const E *L0_SET__insert__pE_rE(void *s, const E *hint, const E *v) { (void)hint; return l0_as_insert(s, (E *)v, 0).first; }
 static inline const E *L0_SET__insert__pE_rrE(void *s, const E *hint, E *v) { (void)hint; return l0_as_insert(s, v, 1).first; }
+/* emplace(args...): the element built from the arguments belongs to the key's class; a node is built and, when an equivalent
+ * element is present, destroyed again */
+static inline struct pair_pE_b L0_SET__emplace__ri32(void *s, int *args) {
+  struct aset *a = l0_as(s);
+  struct pair_pE_b r;
+  (void)args;
+  if (g_allow_elem_throw && nondet_bool()) { l0_exc = nondet_bool() ? L0_EXC_BAD_ALLOC : L0_EXC_ELEM; r.first = 0; r.second = 0; return r; }
+  _Bool ins = !a->has; a->has = 1;
+  if (ins) { a->n += 1; a->pos = nondet_u64(); __CPROVER_assume(a->pos < a->n); }
+  r.first = l0_as_at(a, a->pos); r.second = ins;
+  g_nctor++; g_as_nctor++;
+  if (!ins) { g_ndtor++; g_as_ndtor++; }
+  return r;
+}
+static inline const E *L0_SET__emplace_hint__pE_ri32(void *s, const E *hint, int *args) { (void)hint; return L0_SET__emplace__ri32(s, args).first; }
 #ifdef HAVE_move_iterator_pE
 /* bulk insertion of the inline elements into the (empty) set: SmallSet::grow */
 static inline void L0_SET__insert__move_iterator_pE_move_iterator_pE(void *s, struct move_iterator_pE f, struct move_iterator_pE l) {
